@@ -58,6 +58,12 @@ def compare_full(ctx: Ctx, rule: str, construct: str, func: Func, spec_src: str,
         return False
     tree = ast.parse(spec_src.strip())
     sb = terms.Builder(None, None, dict(env or {}), **{k: v for k, v in opts.items() if k in ("positive", "erase_casts", "erase_validation", "keep_raises", "track_locals", "track_effects", "summarise_loops", "erase_persistence")})
+    # names that are modules in the function's own module are modules in its table too (`nf.f(x)` is a function call)
+    try:
+        mod = func.module
+        sb.module_names = {n for n in list(mod.imports) if (ctx.prog.resolve(mod.name, n) or ("",))[0] in ("module", "ext")}
+    except Exception:
+        sb.module_names = set()
     spec = sb.run(strip_doc(tree.body[0].body))
     none = terms.app("const", "None")
     code = none if code is None else code
